@@ -51,7 +51,10 @@ BaseUndo == [NoPl EXCEPT !["u"] = <<"on", None>>, !["s"] = <<None, "s1">>, !["w"
                          !["i"] = <<"in2", None>>, !["o"] = <<None, "out2">>]
 BaseMin  == [NoPl EXCEPT !["a"] = <<None, "true">>, !["s"] = <<"s2", None>>,
                          !["i"] = <<"in1", None>>, !["o"] = <<None, "out1">>, !["d"] = <<"map1", None>>]
-Bases     == {BaseCli, BaseCfg, BaseUndo, BaseMin}
+\* no anonymization option at all: its neighbourhood is the NoOutput region
+BaseNone == [NoPl EXCEPT !["s"] = <<"s1", None>>, !["r"] = <<None, "r1">>, !["pv"] = <<"on", None>>,
+                         !["i"] = <<None, "in1">>, !["o"] = <<"out1", None>>]
+Bases     == {BaseCli, BaseCfg, BaseUndo, BaseMin, BaseNone}
 PairBases == IF Tier = "quick" THEN {BaseCli} ELSE {BaseCli, BaseMin}
 
 PlaceSet == UNION {UNION {{[x \in Opts |-> IF x = o THEN st ELSE b[x]] : st \in States(o)} : o \in Opts} : b \in Bases}
@@ -84,9 +87,13 @@ FamilySet == CASE Family = "place" -> PlaceSet
 Init == /\ \E pl \in FamilySet : vec = Mk(pl)
         /\ steps = 0
 \* simulation only: change the placement of one option
+\* (RandomElement: exactly one successor per step, so that a simulation run
+\* emits its own states only and not every neighbour of them; bound through a
+\* singleton set because TLC re-evaluates a LET definition at every use)
+Moves == {<<o, st>> : o \in Opts, st \in UNION {States(x) : x \in Opts}}
 Next == /\ Family = "walk" /\ steps < Depth
-        /\ \E o \in Opts : \E st \in States(o) :
-              vec' = [cli |-> [vec.cli EXCEPT ![o] = st[1]], cfg |-> [vec.cfg EXCEPT ![o] = st[2]]]
+        /\ \E m \in {RandomElement({mv \in Moves : mv[2] \in States(mv[1])})} :
+              vec' = [cli |-> [vec.cli EXCEPT ![m[1]] = m[2][1]], cfg |-> [vec.cfg EXCEPT ![m[1]] = m[2][2]]]
         /\ steps' = steps + 1
 Spec == Init /\ [][Next]_gvars
 
